@@ -857,6 +857,7 @@ class Exporter {
     f["name"] = plainQName(FD);
     f["pname"] = prettyFn(FD);
     f["loc"] = fullLocStr(FD->getLocation());
+    if (hasBody && FD->getBody()) f["bloc"] = fullLocStr(FD->getBody()->getBeginLoc());
     bool amc = inAmc(FD->getLocation());
     bool root = inRoots(FD->getLocation());
     if (amc) f["amc"] = true;
